@@ -58,7 +58,7 @@ package memberlist
 //@ pure sameView(m *Memberlist) bool := (forall x string :: sameRec(m, x)) && sameList(m) && sameTimers(m)
 //@ pure quiet() bool := $ev == old($ev) && $bq == old($bq) && $cf == old($cf)
 // cfgOK: configuration validity that Create does not enforce and the code relies on (assumed, DESIGN §7.5)
-//@ pure cfgOK(c *Config) bool := c.IndirectChecks >= 0 && c.GossipNodes >= 0 && c.SuspicionMaxTimeoutMult >= 1 && c.ProbeInterval >= 0 && c.SuspicionMult >= 0
+//@ pure cfgOK(c *Config) bool := c.IndirectChecks >= 0 && c.GossipNodes >= 0 && c.SuspicionMaxTimeoutMult >= 1 && c.ProbeInterval >= 0 && c.SuspicionMult >= 0 && c.UDPBufferSize <= 65535
 //@ pure mlOK(m *Memberlist) bool := m != nil && m.config != nil && cfgOK(m.config) && m.awareness != nil && m.nodeMap != nil && m.nodeTimers != nil && m.broadcasts != nil && m.logger != nil
 
 //@ atomic Memberlist.incarnation rely nondecreasing
@@ -449,10 +449,55 @@ package memberlist
 //@   requires ok: mlNet(m)
 
 // send path (cut points for modular verification; safety only here, budgets under C11)
+// ---- C11: the packet budget. A packet built from queued broadcasts may grow by the CRC header (5), the sealed form
+// (encOv) and the label header (labOv) after sendMsg/gossip hand it to rawSendMsgPacket; `fits` at those hand-offs says
+// the budget left room for all three, `wire-size` in rawSendMsgPacket says nothing else is added.
+// buffers that existed when the function was entered keep their length (the function only fills buffers of its own)
+//@ pure bufsKept(x int) bool := forall p *bytes.Buffer :: old(allocated(p)) ==> buflen(p) == old(buflen(p))
+//@ pure encOv(v int) int := ite(v >= 1, 29, 45)
+//@ pure labOv(l string) int := ite(len(l) == 0, 0, 2 + len(l))
+//@ ghost $vsn int
+//@ ghost $encB bool
+//@ ghost $bound int
 //@ func (*Memberlist).sendMsg(m, a, msg)
-//@   safety [C13,C20]
+//@   safety [C11,C13,C20]
 //@   modular
 //@   requires ok: mlNet(m)
+//@   at call (*Config).EncryptionEnabled: set $encB := res && m.config.GossipVerifyOutgoing
+//@   at call (*Memberlist).encryptionVersion: set $vsn := res
+//@   at call append #2: lemma-after cat-head [C11]: len(res) == 1 + len(extra) && len(res[0]) == len(entry(msg)) && sumlens(res, len(res)) == sumlens(res, 1) + sumlens(res[1:], len(extra))
+//@   at call append #2: lemma-after cat-tail [C11]: sumlens(res[1:], len(extra)) == sumlens(extra, len(extra))
+//@   at call append #2: lemma-after cat [C11]: sumlens(res, len(res)) == len(entry(msg)) + sumlens(extra, len(extra))
+//@   at call makeCompoundMessages: setbefore $bound := 2 + 2 * len(msgs) + sumlens(msgs, len(msgs))
+//@   loop #1 invariant packed [C11]: forall i int :: 0 <= i && i < len(compounds) ==> allocated(compounds[i]) && buflen(compounds[i]) <= $bound
+//@   loop #1 invariant room [C11]: $bound + 5 + ite($encB, encOv($vsn), 0) + labOv(m.config.Label) <= m.config.UDPBufferSize
+//@   at call (*Memberlist).rawSendMsgPacket: assert fits [C11]: len(extra) == 0 || len(msg) + 5 + ite($encB, encOv($vsn), 0) + labOv(m.config.Label) <= m.config.UDPBufferSize
+
+//@ func (*Memberlist).gossip(m)
+//@   safety [C11]
+//@   requires ok: mlNet(m)
+//@   at call (*Config).EncryptionEnabled: set $encB := res
+//@   at call (*Memberlist).encryptionVersion: set $vsn := res
+//@   at call makeCompoundMessages: setbefore $bound := 2 + 2 * len(msgs) + sumlens(msgs, len(msgs))
+//@   loop #2 invariant packed [C11]: forall i int :: 0 <= i && i < len(compounds) ==> allocated(compounds[i]) && buflen(compounds[i]) <= $bound
+//@   loop #2 invariant room [C11]: $bound + 5 + ite($encB && m.config.GossipVerifyOutgoing, encOv($vsn), 0) + labOv(m.config.Label) <= m.config.UDPBufferSize
+//@   at call (*Memberlist).rawSendMsgPacket #1: assert fits [C11]: len(msg) + 5 + ite($encB && m.config.GossipVerifyOutgoing, encOv($vsn), 0) + labOv(m.config.Label) <= m.config.UDPBufferSize
+//@   at call (*Memberlist).rawSendMsgPacket #2: assert fits [C11]: len(msg) + 5 + ite($encB && m.config.GossipVerifyOutgoing, encOv($vsn), 0) + labOv(m.config.Label) <= m.config.UDPBufferSize
+
+//@ func (*Memberlist).encryptionVersion(m)
+//@   safety [C11,C13,C20]
+//@   modular
+//@   requires ok: mlNet(m)
+//@   ensures vsn [C11,C13]: result <= 1
+
+//@ func makeCompoundMessages(msgs)
+//@   safety [C11,C13,C20]
+//@   modular
+//@   requires sizes [C11]: sumlens(msgs, len(msgs)) <= 65535
+//@   at call makeCompoundMessage #1: lemma split [C11]: sumlens(msgs, len(msgs)) == sumlens(msgs, 255) + sumlens(msgs[255:], len(msgs) - 255)
+//@   loop #1 invariant rest [C11]: sumlens(msgs, len(msgs)) + 2 * len(msgs) <= sumlens(entry(msgs), len(entry(msgs))) + 2 * len(entry(msgs)) && sumlens(msgs, len(msgs)) <= sumlens(entry(msgs), len(entry(msgs))) && len(msgs) <= len(entry(msgs))
+//@   loop #1 invariant done [C11]: forall i int :: 0 <= i && i < len(bufs) ==> allocated(bufs[i]) && buflen(bufs[i]) <= 2 + 2 * len(entry(msgs)) + sumlens(entry(msgs), len(entry(msgs)))
+//@   ensures each [C11]: forall i int :: 0 <= i && i < len(result) ==> allocated(result[i]) && buflen(result[i]) <= 2 + 2 * len(msgs) + sumlens(msgs, len(msgs))
 
 // ---- C15: what reaches the wire. With a keyring and outgoing verification, the only buffer handed to the transport
 // is the one encryptPayload filled (starting empty) under the current primary key with the label as associated data.
@@ -466,9 +511,12 @@ package memberlist
 //@   requires nn: c != nil
 //@   ensures keyring [C15]: result ==> c.Keyring != nil
 //@ func (*Memberlist).rawSendMsgPacket(m, a, node, msg)
-//@   safety [C13,C20]
+//@   safety [C11,C13,C20]
 //@   modular
 //@   requires ok: mlNet(m)
+//@   at call (*Memberlist).encryptionVersion: set $vsn := res
+//@   ensures kept [C11]: bufsKept(0)
+//@   at call NodeAwareTransport.WriteToAddress: assert wire-size [C11]: len(arg0) <= len(entry(msg)) + 5 + ite($encOn, encOv($vsn), 0)
 //@   at call (*Config).EncryptionEnabled: set $encErr := 1
 //@   at call (*Config).EncryptionEnabled: set $encOn := res && m.config.GossipVerifyOutgoing
 //@   at call (*Keyring).GetPrimaryKey: set $primary := res
@@ -490,15 +538,37 @@ package memberlist
 //@   at call net.Conn.Write: assert ciphertext-only [C15]: $encOn ==> $encErr == 0 && arg0 == $crypt
 
 //@ func (*Memberlist).getBroadcasts(m, overhead, limit)
-//@   safety [C13,C20]
+//@   safety [C11,C13,C20]
 //@   modular
 //@   requires ok: mlNet(m)
+//@   requires oh: overhead >= 0 && overhead <= 1000
+//@   loop #1 invariant used [C11]: bytesUsed == sumlens(toSend, rangeindex + 1) + overhead * (rangeindex + 1) && rangeindex < len(toSend)
+//@   at call append #2: lemma-after frame [C11]: len(res) == len(toSend) + 1 && sumlens(res, len(toSend)) == sumlens(toSend, len(toSend)) && len(res[len(toSend)]) == len(msg) + 1
+//@   loop #2 invariant apart [C11]: sep(toSend, userMsgs) && allocated(userMsgs)
+//@   loop #2 invariant theirs [C11]: len(userMsgs) == 0 || sumlens(userMsgs, len(userMsgs)) + (overhead + 1) * len(userMsgs) <= avail
+//@   loop #2 invariant framed [C11]: rangeindex < len(userMsgs) && sumlens(toSend, len(toSend)) + overhead * len(toSend) == bytesUsed + sumlens(userMsgs, rangeindex + 1) + (overhead + 1) * (rangeindex + 1)
+//@   ensures budget [C11]: len(result) == 0 || sumlens(result, len(result)) + overhead * len(result) <= limit
 
+// size of the sealed form of n plaintext bytes: version byte, nonce, (version 0: PKCS7 padding to the block size), tag
+//@ pure encLen(v int, n int) int := ite(v >= 1, 29 + n, 29 + n + (16 - n % 16))
 //@ func encryptPayload(vsn, key, msg, data, dst)
-//@   safety [C13,C20]
+//@   safety [C11,C12,C13,C20]
 //@   modular
 //@   requires dst: dst != nil
 //@   requires vsn: vsn <= 1
+//@   ensures sealed-size [C11,C12]: result == nil ==> buflen(dst) == old(buflen(dst)) + encLen(vsn, len(msg))
+//@   ensures others [C11]: forall p *bytes.Buffer :: p != dst ==> buflen(p) == old(buflen(p))
+
+//@ func encryptedLength(vsn, inp)
+//@   safety [C11,C12]
+//@   requires n: inp >= 0
+//@   ensures eq [C11,C12]: result == encLen(vsn, inp)
+
+//@ func encryptOverhead(vsn)
+//@   safety [C11,C12]
+//@   panics documented
+//@   requires vsn: vsn <= 1
+//@   ensures bound [C11,C12]: forall n int :: n >= 0 ==> encLen(vsn, n) <= n + result
 
 //@ func (*Memberlist).encryptLocalState(m, sendBuf, streamLabel)
 //@   safety [C13,C20]
@@ -511,30 +581,53 @@ package memberlist
 //@   at call (*bytes.Buffer).Bytes #2: set $wire := res
 //@   ensures sealed [C15]: result1 == nil ==> $encErr == 0 && result0 == $wire
 
+// ---- C11: packing. packed(msgs) = sum of len(msgs[i]); a compound message costs 2 + 2 per part + packed
 //@ func makeCompoundMessage(msgs)
-//@   safety [C13,C20]
+//@   safety [C11,C13,C20]
 //@   modular
+//@   conv lossless
+//@   requires count [C11]: len(msgs) <= 255
+//@   requires sizes [C11]: sumlens(msgs, len(msgs)) <= 65535
+//@   loop #1 invariant hdr [C11]: buflen(buf) == 2 + 2 * (rangeindex + 1) && rangeindex < len(msgs)
+//@   loop #1 invariant others [C11]: forall p *bytes.Buffer :: p != buf ==> buflen(p) == old(buflen(p))
+//@   loop #2 invariant others [C11]: forall p *bytes.Buffer :: p != buf ==> buflen(p) == old(buflen(p))
+//@   loop #2 invariant body [C11]: buflen(buf) == 2 + 2 * len(msgs) + sumlens(msgs, rangeindex + 1) && rangeindex < len(msgs)
 //@   ensures nn: result != nil
+//@   ensures size [C11]: buflen(result) == 2 + 2 * len(msgs) + sumlens(msgs, len(msgs))
+//@   ensures own [C11]: fresh(result) && (forall p *bytes.Buffer :: p != result ==> buflen(p) == old(buflen(p)))
 
 //@ func compressPayload(inp, msgpackUseNewTimeFormat)
-//@   safety [C13,C20]
+//@   safety [C11,C13,C20]
 //@   modular
 //@   ensures nn: result1 == nil ==> result0 != nil
+//@   ensures kept [C11]: bufsKept(0)
 
 //@ func encode(msgType, in, msgpackUseNewTimeFormat)
-//@   safety [C13,C20]
+//@   safety [C11,C13,C20]
 //@   modular
 //@   ensures nn: result1 == nil ==> result0 != nil
+//@   ensures kept [C11]: bufsKept(0)
 
 //@ func pkcs7encode(buf, ignore, blockSize)
-//@   safety [C13,C20]
-//@   requires nn: buf != nil && blockSize > 0
-//@   loop #1 invariant grow [C12,C13]: buflen(buf) >= old(buflen(buf))
-//@   ensures grow [C12]: buflen(buf) >= old(buflen(buf))
+//@   safety [C11,C12,C13,C20]
+//@   requires nn: buf != nil && blockSize > 0 && ignore >= 0 && ignore <= buflen(buf)
+//@   loop #1 invariant grow [C11,C12,C13]: buflen(buf) == old(buflen(buf)) + rangeint_iter
+//@   loop #1 invariant others [C11]: forall p *bytes.Buffer :: p != buf ==> buflen(p) == old(buflen(p))
+//@   ensures others [C11]: forall p *bytes.Buffer :: p != buf ==> buflen(p) == old(buflen(p))
+//@   ensures padded [C11,C12]: buflen(buf) == old(buflen(buf)) + blockSize - (old(buflen(buf)) - ignore) % blockSize
 
 //@ func (*TransmitLimitedQueue).GetBroadcasts(q, overhead, limit)
+//@   trusted   // byte budget of the queue: contract assumed here, its body is the subject of C10
 //@   modular
 //@   requires nn: q != nil
+//@   ensures budget [C10,C11]: len(result) == 0 || sumlens(result, len(result)) + overhead * len(result) <= limit
+//@   ensures mine [C11]: allocated(result)
+
+// the documented contract of Delegate.GetBroadcasts: total size including the per-message overhead stays within limit
+//@ iface Delegate.GetBroadcasts(overhead, limit)
+//@   assigns fresh elems []byte, fresh elems byte
+//@   ensures budget: len(result) == 0 || sumlens(result, len(result)) + overhead * len(result) <= limit
+//@   ensures own: fresh(result)   // assumption on the application: the slice it returns is not one of memberlist's own unpublished arrays
 
 // every element of the two hand-off queues is a msgHandoff (the only PushBack site is handleCommand; checked structurally under C13)
 //@ axiom listvals: forall p *list.Element :: typeIs(p.Value, msgHandoff)
